@@ -140,9 +140,16 @@ def v2_text(rows, q='"', sep="\r\n"):
 def must_refuse(ctx, H, text, what, kind, enc="ascii"):
     ctx.ev()
     ctx.count("corruptions")
-    case = {"op": "corrupt", "text": text, "what": what, "kind": kind, "enc": enc}
+    strict_warnings = ctx.evaluations % 3 == 0 if ctx.replay_case is None else bool(ctx.replay_case["case"].get("warnings_are_errors"))
+    case = {"op": "corrupt", "text": text, "what": what, "kind": kind, "enc": enc, "warnings_are_errors": strict_warnings}
     try:
-        h, body = H.parse_header(io.BytesIO((text + BODY).encode(enc)))
+        import warnings
+        with warnings.catch_warnings():
+            if strict_warnings:
+                # an application (or a test runner) that turns warnings into errors: the refusal is still the header error
+                warnings.simplefilter("error")
+                ctx.count("corruptions_with_warnings_as_errors")
+            h, body = H.parse_header(io.BytesIO((text + BODY).encode(enc)))
     except H.OFXHeaderError:
         return
     except Exception as e:
